@@ -65,6 +65,7 @@ def verify_function(e: Engine, qname: str) -> FunctionResult:
     e.counters = {}
     e.call_counts = {}
     e.nested_defs = {}
+    e.local_imports = {}
     e.interest = {}
     # stable statement labels for ghost anchors: <StmtType>#<ordinal in source order>
     e.stmt_labels = {}
